@@ -27,7 +27,7 @@ for kind in (1, 2, 3, 4):
     if kind >= 3: stubs['P_INIT'] = copy_rx(CLSN[kind - 1], n, r'unsigned char\)')
     job('olc.rocs.k%d' % kind, ['C14', 'C16', 'C10', 'C08'], 'u_olc', 'proofs/olc/rocs.c', defines=['KIND=%d' % kind, 'POL=OLC64'],
         roots={'ROCS': r'unodb::detail::olc_impl_helpers::remove_or_choose_subtree<[^(]*olc_inode_%d<' % n}, stubs=stubs, cfgs=(BASE, DEBUG),
-        unwind=UNW[kind], unwindset_raw=SPEC_LOOPS, floor=30, timeout=1800, mem_gb=20, memsafe=False, objbits=14,
+        unwind=UNW[kind], unwindset_raw=SPEC_LOOPS, floor=30, timeout=1800, mem_gb=(12 if kind <= 2 else 20), memsafe=False, objbits=14,
         under_contract=['olc_impl_helpers::remove_or_choose_subtree<olc_inode_%d> (lock-coupled removal step incl. write guards, obsolete, QSBR retire)' % n],
         trusted=['sequential contracts of the optimistic_lock primitives (their concurrent semantics: C07)', 'one thread only: no claim about interleavings',
                  'qsbr_per_thread::on_next_epoch_deallocate is a ledger event'] + (['basic_inode_%d::init(db, inode_%d&, child_to_delete) (shrink copy routine): no lock operation (IR fact olc.copy-routines.no-locks); memory / statistics / retire effects not modelled, shrink postconditions C10/C04-seq not claimed for this class' % (CLSN[kind - 1], n)] if kind >= 3 else []))
@@ -47,12 +47,12 @@ for kind in (0, 1):
         under_contract=['olc_db<uint64_t>::try_remove (%s)' % ('entry: empty / leaf root / inner root up to the loop head' if kind == 0 else 'one descent-loop iteration, callee remove_or_choose_subtree by contract')],
         trusted=['sequential contracts of the optimistic_lock primitives (their concurrent semantics: C07)', 'one thread only: no claim about interleavings'])
 # add_or_choose_subtree: the lock-coupled insertion step (write guards parent -> node; growth to the next larger class)
-for kind in (1, 2, 3, 4):
+for kind, fp in ((1, 0), (2, 0), (3, 0), (4, 0), (1, 1), (2, 1)):
     n = CLSN[kind]; stubs = dict(ADT); stubs.update(LW)
     if kind in (3,): stubs['P_GROW'] = copy_rx(CLSN[kind + 1], n, r'std::unique_ptr<')
-    job('olc.aocs.k%d' % kind, ['C14', 'C16', 'C10', 'C08'], 'u_olc', 'proofs/olc/aocs.c', defines=['KIND=%d' % kind, 'POL=OLC64'],
+    job('olc.aocs.k%d%s' % (kind, 'f' if fp else ''), (['C01', 'C10', 'C16'] if fp else ['C14', 'C16', 'C10', 'C08']), 'u_olc', 'proofs/olc/aocs.c', defines=['KIND=%d' % kind, 'POL=OLC64'] + (['FUNCPOST=1'] if fp else []),
         roots=dict({'AOCS': r'unodb::detail::olc_impl_helpers::add_or_choose_subtree<[^(]*olc_inode_%d<' % n}, **({'N48_ADD': onode_rx(48) + r'add_to_nonfull\('} if kind == 3 else {})), stubs=stubs, cfgs=(BASE, DEBUG),
-        unwind={1: 19, 2: 50, 3: 258, 4: 258}[kind], unwindset_raw=SPEC_LOOPS, unwindset=({'N48_ADD': 8} if kind == 3 else None), floor=30, timeout=1800, mem_gb=20, memsafe=False, objbits=14,
+        unwind={1: 19, 2: 50, 3: 258, 4: 258}[kind], unwindset_raw=SPEC_LOOPS, unwindset=({'N48_ADD': 8} if kind == 3 else None), floor=30, timeout=1800, mem_gb=(12 if kind == 1 else 20), memsafe=False, objbits=14,
         under_contract=['olc_impl_helpers::add_or_choose_subtree<olc_inode_%d> (lock-coupled insertion step incl. write guards, growth, allocation failure)' % n],
         trusted=['sequential contracts of the optimistic_lock primitives (their concurrent semantics: C07)', 'one thread only: no claim about interleavings',
                  'qsbr_per_thread::on_next_epoch_deallocate is a ledger event'] + (['basic_inode_%d::init(db, inode_%d&, leaf, depth) (growth copy routine): no lock operation (IR fact olc.copy-routines.no-locks), takes the leaf; memory / statistics / retire effects not modelled, growth postconditions C10/C04-seq not claimed for this class' % (CLSN[kind + 1], n)] if kind in (3,) else []))
